@@ -26,6 +26,36 @@ EXPLANATION = (
 ASSUMPTIONS = ["rustls StreamOwned reads/writes only through the wrapped transport it is given", "std::io::Chain reads the first reader to exhaustion before the second"]
 
 
+def _filled_from(fn, cursor, pidx):
+    """Cursor::new(v) where v starts as an empty Vec (new / with_capacity) and the only thing done to it before the cursor takes it is
+    one `extend_from_slice(param)` / `extend(param)` of the whole parameter, on every way to the cursor: same content as to_vec()."""
+    v0 = T.peel(cursor[2][0], payloads=False)
+    if not T.is_call(v0, r"Vec::<T>::new$|Vec::<T>::with_capacity$"):
+        return False
+    site = cursor[3] if len(cursor) > 3 and isinstance(cursor[3], int) else None
+    if site is None:
+        return False
+    fills = []
+    for bb, t in fn.calls():
+        if not t["args"] or bb == site:
+            continue
+        a0 = fn.origin_op(t["args"][0], bb, len(fn.blocks[bb]["stmts"]))
+        if T.peel(a0, payloads=False) != v0:
+            continue
+        name = cname(t["func"])
+        if re.search(r"Vec::<T(, A)?>::(len|capacity|reserve|reserve_exact|is_empty)$", name):
+            continue
+        if re.search(r"Vec::<T(, A)?>::extend_from_slice$|Extend<.*>>::extend$", name) and len(t["args"]) == 2 and \
+                T.is_param(T.peel(fn.origin_op(t["args"][1], bb, len(fn.blocks[bb]["stmts"]))), pidx):
+            fills.append(bb)
+            continue
+        return False   # anything else touching the vector (truncate, clear, push, drain, ...) is not recognised
+    if len(fills) != 1 or not fn.dominates(fills[0], site):
+        return False
+    # not inside a loop: the fill must not be able to reach itself
+    return fills[0] not in fn.reachable_after(fills[0])
+
+
 def run(ctx):
     prog = ctx.prog("tls")
     roles, eff = effects.build(prog)
@@ -116,6 +146,8 @@ def run(ctx):
     inner = o[4][0] if o[0] == "agg" and len(o[4]) == 1 else None
     ok = T.is_call(inner, r"std::io::Read::chain$") and T.is_call(T.peel(inner[2][0], payloads=False), r"Cursor::<T>::new$") and T.is_param(T.peel(inner[2][1]), 2) and \
         T.contains(inner[2][0], lambda x: T.is_call(x, r"to_vec$|to_owned$|Vec<T>>::from$|From<&\[T\]>>::from$|From<&'?\w* ?\[T\]>>::from$") and T.is_param(T.peel(x[2][0]), 1))
+    if not ok and T.is_call(inner, r"std::io::Read::chain$") and T.is_call(T.peel(inner[2][0], payloads=False), r"Cursor::<T>::new$") and T.is_param(T.peel(inner[2][1]), 2):
+        ok = _filled_from(pn, T.peel(inner[2][0], payloads=False), 1)
     ctx.ob("C18.tail-handoff", ok, "the prepending reader is %s (need Cursor(prepended.to_vec()).chain(socket): prepended bytes first, all of them)" % term_str(inner)[:100],
            fn=pn.path, construct="chain-order", sample={"rule": "tail-handoff", "reader": term_str(inner)[:100]})
     # the inner switch passes the prepend slice and the plain socket to PrependedReader::new
